@@ -99,7 +99,7 @@ func c02Canon() {
 
 func (x *c02Run) execChild() (string, bool) {
 	cmd := exec.Command(os.Args[0], "c02canon")
-	cmd.Env = append(os.Environ(), "TZ=UTC")
+	cmd.Env = append(os.Environ(), "TZ="+curTZ)
 	b, _ := json.Marshal(x.cs)
 	cmd.Stdin = bytes.NewReader(b)
 	var so bytes.Buffer
@@ -808,7 +808,7 @@ func (ck c02) Replay(c *Ctx, v *Violation) *Violation {
 		}
 		out := filepath.Join(c.Scratch, "ea-child.json")
 		cmd := exec.Command(os.Args[0], "shard", "-prop", "C02", "-tier", ea.Tier, "-seed", fmt.Sprint(c.Seed), "-only", fmt.Sprint(ea.Index), "-sites", sitesPath, "-scratch", c.Scratch, "-out", out)
-		cmd.Env = append(os.Environ(), "TZ=UTC")
+		cmd.Env = append(os.Environ(), "TZ="+curTZ)
 		if err := cmd.Run(); err != nil {
 			fatal("replay child: %v", err)
 		}
